@@ -276,6 +276,8 @@ pub enum Act {
     UpdateAdmin { by: u8, to: u8 },
     Migrate { limit: Option<u64> },
     Advance,
+    /// stray funds: a user sends bank coins straight to the contract's account (no Transfer message)
+    Donate { user: u8, tok: Tok, amt: Amt },
 }
 
 fn tok_name(t: &Tok) -> String {
@@ -326,6 +328,13 @@ impl std::fmt::Debug for Act {
             Act::UpdateAdmin { by, to } => write!(f, "UpdateAdmin{{by={}, new={}}}", who(by), who(to)),
             Act::Migrate { limit } => write!(f, "Migrate{{default_gas_limit={:?}}}", limit),
             Act::Advance => write!(f, "AdvanceBlock"),
+            Act::Donate { user, tok, amt } => write!(
+                f,
+                "BankSendToContract{{by={}, coin={} {}}} (stray funds, no transfer)",
+                who(user),
+                amt.0,
+                tok_name(tok)
+            ),
         }
     }
 }
@@ -401,6 +410,8 @@ pub struct Cfg {
     pub admin_targets: Vec<u8>,
     pub migrate_limits: Vec<Option<u64>>,
     pub hmax: u64,
+    /// users that may send bank coins (1 at a time, of any bank token they hold) straight to the contract
+    pub donors: Vec<u8>,
     /// leave `total_sent` out of the state key (see `Key::hash`)
     pub mask_total_sent: bool,
 }
@@ -441,6 +452,7 @@ impl Cfg {
             admin_targets: vec![],
             migrate_limits: vec![],
             hmax: H0,
+            donors: vec![],
             mask_total_sent: true,
         }
     }
@@ -1047,6 +1059,7 @@ impl Ics20Model {
                 Instance {
                     vt: ics_vt(),
                     store: MemStore::new(),
+                    wasm_admin: None,
                 },
             );
             let inst = w.contracts.get_mut(&ics).unwrap();
@@ -1196,6 +1209,7 @@ fn label(a: &Act) -> String {
         Act::UpdateAdmin { .. } => "UpdateAdmin".into(),
         Act::Migrate { .. } => "Migrate".into(),
         Act::Advance => "AdvanceBlock".into(),
+        Act::Donate { .. } => "BankSendToContract".into(),
     }
 }
 
@@ -1483,6 +1497,13 @@ impl Model for Ics20Model {
         }
         for l in &cfg.migrate_limits {
             out.push(Act::Migrate { limit: *l });
+        }
+        for &u in &cfg.donors {
+            for (fu, t, _) in &cfg.funds {
+                if *fu == u && t.is_bank() && s.obs.tbal(&actor(u), t) >= 1 {
+                    out.push(Act::Donate { user: u, tok: *t, amt: Amt(1) });
+                }
+            }
         }
         if s.w.height < cfg.hmax {
             out.push(Act::Advance);
@@ -1791,6 +1812,16 @@ impl Model for Ics20Model {
                     }
                 }
             }
+            Act::Donate { user, tok, amt } => {
+                // holdings rise without any escrow: nothing is credited to any channel
+                may_move_tokens = true;
+                let r0 = w.bank_send(&actor(*user), &ics, &[coin(amt.0, tok.denom())]);
+                post = self.observe(&w, Some((&s.w, pre)));
+                ok = r0.is_ok();
+                if post.chans != pre.chans {
+                    v.push(Violation::new("kernel.bank_send_changed_contract_state", pre.diff(&post)));
+                }
+            }
             Act::Allow { by, token, limit } => {
                 let out = w.execute_json(
                     &actor(*by),
@@ -1878,7 +1909,7 @@ impl Model for Ics20Model {
                     }
                     if s.migrated {
                         // same-version migrate: books and balances untouched
-                        if (p.c12 || p.c11) && (post.chans != pre.chans || post.bank != pre.bank || post.cw20 != pre.cw20) {
+                        if p.c12 && (post.chans != pre.chans || post.bank != pre.bank || post.cw20 != pre.cw20) {
                             v.push(Violation::new("C12.migrate_keeps_books", pre.diff(&post)));
                         }
                     } else {
